@@ -6,6 +6,7 @@ def dispatch (line : String) : String :=
   | "c01" :: rest => (handleC01 rest).getD "err|bad-request"
   | "c02" :: rest => (handleC02 rest).getD "err|bad-request"
   | "c03" :: rest => (handleC03 rest).getD "err|bad-request"
+  | "c07" :: rest => (handleC07 rest).getD "err|bad-request"
   | _ => "err|unknown-command"
 
 partial def loop (h : IO.FS.Stream) (out : IO.FS.Stream) : IO Unit := do
